@@ -121,8 +121,13 @@ Theorem C12_extract_cost : forall node_hash maxtx m,
   (extract_calls node_hash maxtx m <= 2 * (8 * length (m_flags m)) + 1)%nat /\
   (forall n k, maxtx < 2 ^ 31 -> n <= maxtx -> maxtx <= 2 ^ N.of_nat k ->
      exists H : nat, height_loop (pb_tree_width n) 1 height_fuel 0 = Ok (N.of_nat H) /\ (H <= k)%nat).
-Proof. intros node_hash maxtx m. split; [exact (extract_cost node_hash maxtx m)|intros n k; exact (extract_depth maxtx n k)]. Qed.
+Proof. exact extract_cost_depth. Qed.
 Print Assumptions C12_extract_cost.
+
+(* ExtractMatches does not panic on any message (used by C08) *)
+Theorem C12_extract_no_panic : forall node_hash maxtx m, is_panic (extract node_hash maxtx m) = false.
+Proof. exact extract_no_panic. Qed.
+Print Assumptions C12_extract_no_panic.
 
 (* the hypotheses are satisfiable: a 7-transaction proof revealing transactions 2 and 6 is accepted;
    a CVE-2012-2459-shaped message is rejected by the latch *)
